@@ -399,6 +399,27 @@ let dispatch mode f =
               | EBadHex -> "5" | EUnrecognized -> "6" | EUnknownDirective -> "7" | EMalformedLabel -> "8") ^ at l in
       String.concat " " (List.map show items)
     end
+  | "cli", [before; arch; after_args; oopen; paths_ok; img; exports] ->
+    (* the decision logic of main(): argv shape and phase outcomes -> exit status and outputs *)
+    let args_of s = if s = "" then [] else List.map (fun a ->
+        let p = unhex (after 2 a) in
+        match a.[0] with
+        | 'o' -> AOut p | 'I' -> AInc p | 'g' -> ADbg p | 'f' -> AFile p | 'x' -> AExp p
+        | _ -> failwith ("cli arg " ^ a)) (split ',' s) in
+    (match parse (args_of before) (arch_id arch) (args_of after_args) with
+     | None -> "USAGE"
+     | Some c ->
+       let oo = match oopen with "-" -> None | "1" -> Some true | _ -> Some false in
+       let image = if img = "FAIL" then ImgFail else ImgOk (unhex img) in
+       let ex = if exports = "" then [] else List.map (fun x -> x = "1") (split ',' exports) in
+       let e = run_main oo (paths_ok = "1") image ex in
+       Printf.sprintf "exit=%d msg=%d stdout=%s ofile=%s cfg=%s|%s|%s|%s|%s"
+         (if e.e_success then 0 else 1) (if e.e_message then 1 else 0) (hex_of_bytes e.e_stdout)
+         (match e.e_ofile with None -> "-" | Some d -> "[" ^ hex_of_bytes d ^ "]")
+         (hex_of_bytes c.c_file) (match c.c_out with None -> "-" | Some p -> hex_of_bytes p)
+         (String.concat "," (List.map hex_of_bytes c.c_incs))
+         (match c.c_dbg with None -> "-" | Some p -> hex_of_bytes p)
+         (match c.c_exp with None -> "-" | Some p -> hex_of_bytes p))
   | _ -> "BADMODE"
 
 let () =
